@@ -281,4 +281,25 @@ def main(argv):
                    "(fun '(c, p) => stack_model c p)", stack_oracle, nontrivial=lambda c, o: True,
                    theorems_note="C04_actor (session forwards the engine's deliveries), C04_session_eof_loses_nothing, C04_session_eof_segmentation_independent",
                    strip=stack_strip, tag="stack", signature=stack_signature)
+    # encrypted mechanisms (opaque in the engine model): the server's first data record arrives in the same read as its
+    # READY, in a read of its own, or cut anywhere in between - the client must deliver the same single message
+    from . import c18
+    ecs = []
+    for mech in ("curve", "noise"):
+        for (join, cut) in [(True, 0), (False, 0)] + [(True, k) for k in ((1, 30, 60) if tier == "quick" else (1, 2, 9, 20, 30, 41, 60, 80, 100))]:
+            ecs.append({"k": "early", "mech": mech, "join": join, "cut": cut, "seed": rng.randrange(1, 60000),
+                        "msg": c18.gen_msg(rng, c18.SMALL)})
+    eobs, elog = C.run_harness("c18", ecs, PROP, tag="early")
+    if eobs is None or len(eobs) != len(ecs):
+        res.obligation(False, "encrypted early-data scenarios could not run: " + str(elog)[-500:])
+    else:
+        for c, o in zip(ecs, eobs):
+            res.evaluations += 1
+            res.count("early:%s:%s" % (c["mech"], "joined" if c["join"] else "separate"))
+            res.nontrivial.add("early:%d" % len(res.nontrivial))
+            r = c18.oracle(c, o)
+            if r:
+                res.violation({"property": PROP, "kind": "implementation violates property oracle", "what": "%s handshake: %s" % (c["mech"], r[0]),
+                               "case": c, "impl_obs": o, "harness": "c18"}, found_input=True)
+                break
     return res.finish(assumptions=["engine level only in this check; the session actor's forwarding of engine deliveries is checked by the stack-level scenarios (see DESIGN)"])
